@@ -328,7 +328,9 @@ func VertexToLine(vertex []v2.Vec, closed bool) []*Line2 {
 	}
 	if closed {
 		if !vertex[0].Equals(vertex[n-1], tolerance) {
-			vertex = append(vertex, vertex[0])
+			// append to a copy: the caller's slice may have spare capacity
+			// holding data that belongs to the caller
+			vertex = append(vertex[:n:n], vertex[0])
 		}
 	}
 	// create the segments
